@@ -2,7 +2,6 @@ package main
 
 import (
 	"strings"
-	"ti/builtin"
 	"ti/cmd"
 	"ti/context"
 	"ti/lexer"
@@ -34,10 +33,6 @@ func VerifRunSrc(n int) {
 	verifRounds(verifapi.Source(), verifapi.FileName())
 }
 
-func VerifRunSym(n int) {
-	builtin.VerifInstallSym("a", "b")
-	verifRounds(verifapi.Source(), verifapi.FileName())
-}
 
 // ---- F2: short fragment sequences (C01, C02, C04) ----
 
